@@ -4,19 +4,14 @@ sys.path.insert(0, os.path.dirname(__file__))
 from funnel_common import funnel_job, funnel_conc_job, funnel_shared_job, FUNNEL_RULE, FUNNEL_ASSUME
 
 PROP = {
-    "lean_modules": ["ConduitModel.Props.C05"],
+    "lean_modules": ["ConduitModel.Props.ArbiterProps"],
     "jobs": [funnel_job("C01"), funnel_conc_job("C01"), funnel_shared_job("C01")],
     "rule": FUNNEL_RULE,
-    "strength": "v2: proved — the tainted loop hands out the batch left to right exactly once (all status vectors); pass-level order "
-                "to each destination is decided by the monitor on every implementation trace + equality with the model (partial: composition not proved). v1: see Props/C05Stream when merged",
+    "strength": 'fan-out arbitration: full (all M, n, vote orders); whole pass: partial (see note)',
     "assumptions": FUNNEL_ASSUME,
 }
 META = {
-    "text": "Lean 4 theorems for every status vector: the sub-batches the arch-v2 worker hands to the next task are non-empty, contiguous, "
-            "in index order and cover the batch exactly once (C05_subbatches_partition / _cover / _groups_progress). The executable model of the "
-            "whole pass (Model/Funnel.lean) is tied to the real funnel.Worker by equality of event logs on generated topologies/scripts, and the "
-            "C01 monitor (every acked record was confirmed by every destination that received a piece of it, or filtered, or its DLQ write was confirmed) is evaluated on every implementation trace.",
-    "note": "PARTIAL: the composition of the loop theorem with the task recursion (doTaskAttempt/doNextTask/retry) is validated by differential "
-            "testing, not proved. Fan-out concurrency is compared under serial branch orders. Go channel/goroutine semantics, plugins replaced by fakes.",
-    "technique": "Lean 4 proof of the batch-partition law + model/implementation trace equality + Lean-defined trace monitor",
+    "text": 'Lean 4 theorems for every number of branches M, batch size n and every vote sequence/order of the arch-v2 fan-out arbiter (multiAckNacker): a position released as acked was voted ack by every branch (C01_ma_ack_unanimous); the acked set does not depend on the vote order (C01_ma_release_order_independent); simulation lemmas tie the monadic engine model (ackerCall/releaseLoop/voteLoop) to the pure arbiter. The executable model of the whole pass is tied to the real funnel.Worker by event-log equality; the C01 monitor (every acked record confirmed by every destination that received a piece of it, or filtered, or DLQ write confirmed) runs on every implementation trace.',
+    "note": 'PARTIAL: the composition of these leaf theorems with the task recursion of Worker.doTaskAttempt/doNextTask (whole-pass statement) is validated by equality of event logs against the executable Lean model and by the Lean-defined trace monitor on every implementation trace (serial fan-out orders, real concurrent fan-out, several sources into one shared sink), not proved. v1 (default engine) part: Props/*Stream when merged. Trusted: Lean kernel, factgen, harness/fakes, Go runtime.',
+    "technique": 'Lean 4 invariant proofs over all vote sequences + model/implementation trace equality + Lean-defined trace monitor',
 }
